@@ -217,6 +217,31 @@ Theorem C02_indexed_value_reads_back_through_the_file :
               vs_get s (N.of_nat i) None = Ok v.
 Proof. exact indexed_value_reads_back_through_the_file. Qed.
 
+(* through an index: the index header placed in the file names a store and a window; entry j of the index is entry
+   (offset + j) of that store, read back with its values *)
+Theorem C02_indexed_entries_read_back_through_the_file :
+  forall f base h dh vptrs eptrs iptrs store shape (rows : list (list wfield)) ki iso ih so j row,
+  dir_pack_at f base h dh vptrs eptrs iptrs ->
+  nth_error iptrs ki = Some iso -> wf_sized_offset iso ->
+  (ix_store ih < 2 ^ 32)%N -> (ix_count ih < 2 ^ 32)%N -> (ix_offset ih < 2 ^ 32)%N -> length (ix_free ih) = 4 ->
+  (ix_prop ih < 256)%N -> wf_name (ix_name ih) ->
+  so_size iso = lenN (ser_index_header ih) -> placed f (base + so_off iso)%N (ser_index_header ih) ->
+  Forall (row_has_shape store shape) rows ->
+  (N.of_nat j < ix_count ih)%N -> nth_error rows (N.to_nat (ix_offset ih) + j) = Some row ->
+  (N.of_nat (length rows) < 2 ^ 32)%N -> length shape <= 255 -> (N.of_nat (psize (map raw_of shape)) < 65536)%N ->
+  Forall wf_wprop shape -> Forall (fun w => match w with WVariantId _ => False | _ => True end) shape ->
+  let tail := ser_flat_tail (N.of_nat (length rows)) (psize (map raw_of shape)) shape in
+  let data := concat (map (fun r => concat (map ser_field r)) rows) in
+  nth_error eptrs (N.to_nat (ix_store ih)) = Some so -> wf_sized_offset so -> so_size so = lenN tail ->
+  placed f (base + so_off so)%N tail -> (lenN data + 4 <= so_off so)%N -> placed f (base + so_off so - lenN data - 4)%N data ->
+  exists d ly dat e,
+    run f (dp_open_p base) = Ok d /\
+    run f (dp_index_p d (N.of_nat ki)) = Ok ih /\
+    run f (dp_entry_store_p d (ix_store ih)) = Ok (ly, dat) /\
+    index_get ih ly dat (N.of_nat j) = Some e /\
+    read_entry store ly e = (None, shown row).
+Proof. exact indexed_entries_read_back_through_the_file. Qed.
+
 Print Assumptions C02_every_entry_reads_back.
 Print Assumptions C02_written_descriptors_parse_to_the_layout.
 Print Assumptions C02_unsigned_field.
@@ -243,3 +268,4 @@ Print Assumptions C02_stored_entries_read_back_through_the_file.
 Print Assumptions C02_stored_variant_entries_read_back_through_the_file.
 Print Assumptions C02_plain_value_reads_back_through_the_file.
 Print Assumptions C02_indexed_value_reads_back_through_the_file.
+Print Assumptions C02_indexed_entries_read_back_through_the_file.
